@@ -61,7 +61,8 @@ def ops : Ops Mem Fac Rat :=
     addDiag := memAddDiag
     transposeF := fun f => (f.1, !f.2) }
 
-def consts : Consts := { base := LinOp.Generated.C16.base, clones := LinOp.Generated.C16.clones }
+def consts : Consts :=
+  { base := LinOp.Generated.C16.base, clones := LinOp.Generated.C16.clones, jitterNewBound := LinOp.Generated.C16.jitterNewBound }
 
 def parseX? (s : String) : Option X :=
   if s = "nan" then some none else (parseRat? s).map some
